@@ -75,6 +75,11 @@ Step ==
        ELSE IF T.focus = "C01" /\ ti.k = "str" /\ a # b /\
                LET va == StrValue(Src, i, ti.e) vb == StrValue(Out, o, to.e) IN ~(vb.ok /\ va.v = vb.v)
             THEN Stop("strval")
+       ELSE IF T.focus = "C01" /\ ti.k \in {"name", "label"} THEN
+            \* "identifiers differ at most by the renaming": one input identifier, one output identifier
+            LET x == NameOf(Src, i, ti.e, ti.k) y == NameOf(Out, o, to.e, to.k) IN
+              IF \E p \in ren : p[1] = x /\ p[2] # y THEN Stop("rename-not-a-function")
+              ELSE ren' = ren \cup {<<x, y>>} /\ Advance(ti, to) /\ UNCHANGED <<tid, verdict>>
        ELSE IF T.focus = "C02" /\ ti.k \in {"name", "label"} THEN
             LET x == NameOf(Src, i, ti.e, ti.k) y == NameOf(Out, o, to.e, to.k) IN
               IF \E p \in ren : p[1] = x /\ p[2] # y THEN Stop("rename-consistent")
